@@ -380,6 +380,73 @@ func init() {
 	}
 }
 
+// installAccessorPaths: the accessors BaseMetrics()/TemporalMetrics() that do return the embedded object of their
+// receiver (every path: that object, or nil under receiver == nil) are read as the field path they stand for, so
+// that x.BaseMetrics().Ver = v is a store to the base object's Ver like x.Base.Ver = v. An accessor that does
+// anything else stays a call (and is reported by accessor-identity where that rule is kept).
+func (e *Env) installAccessorPaths() {
+	paths := map[*types.Func][]*types.Var{}
+	ir.AccessorPath = nil
+	for _, v := range []*spec.Version{&spec.V3, &spec.V2} {
+		ls, err := e.F.Levels(v)
+		if err != nil {
+			continue
+		}
+		for _, l := range ls {
+			for _, acc := range []string{"BaseMetrics", "TemporalMetrics"} {
+				m := l.Method(acc)
+				if m == nil {
+					continue
+				}
+				var target *facts.Level
+				for lv := l; lv != nil; lv = lv.Lower {
+					if lv.Spec.Name+"Metrics" == acc {
+						target = lv
+					}
+				}
+				if target == nil {
+					continue
+				}
+				path := []*types.Var{} // empty for the level itself: x.BaseMetrics() of a *Base is x
+				want := ir.Param(0)
+				for lv := l; lv != target; lv = lv.Lower {
+					want = ir.Field(want, lv.Embedded)
+					path = append(path, lv.Embedded)
+				}
+				sf := e.P.SSAFunc(m)
+				if sf == nil {
+					continue
+				}
+				leaves, err := ir.Leaves(sf, ir.LeafOptions{Forward: true})
+				if err != nil || len(leaves) == 0 {
+					continue
+				}
+				ok := true
+				for _, lf := range leaves {
+					if len(lf.Ret) != 1 {
+						ok = false
+						break
+					}
+					r := lf.Ret[0]
+					if isNilConst(r) && hasGuard(lf, ir.Bin("==", ir.Param(0), nilOf(l.Ptr()))) {
+						continue
+					}
+					if r.Key() != want.Key() {
+						ok = false
+					}
+				}
+				if ok {
+					paths[m] = path
+				}
+			}
+		}
+	}
+	ir.AccessorPath = func(fn *types.Func) ([]*types.Var, bool) {
+		p, ok := paths[fn]
+		return p, ok
+	}
+}
+
 // tableModelProblems reports what the table model could not represent, for the tables a property's rules read
 // (a package-level map of another kind - functions, structs - in another package is none of its business; a rule
 // that does read such a table gets an invalid value and reports UNDECIDED itself).
